@@ -269,7 +269,9 @@ static int
 be_filter_enable(struct bufferevent *bev, short event)
 {
 	struct bufferevent_filtered *bevf = upcast(bev);
-	if (event & EV_WRITE)
+	/* The write timeout only runs while there is something to write
+	 * (as for pairs and sockets). */
+	if ((event & EV_WRITE) && evbuffer_get_length(bev->output))
 		BEV_RESET_GENERIC_WRITE_TIMEOUT(bev);
 
 	if (event & EV_READ) {
